@@ -309,6 +309,12 @@ func c09Greedy(N int) {
 	reps, _ := c09Reps(adj)
 	g := reps[rt.Choice("rep", len(reps))]
 	order := vgPerm("order", n)
+	c09GreedyCheck(adj, g, order)
+	rt.Reach("end")
+}
+
+func c09GreedyCheck(adj [][]bool, g Graph, order []int) {
+	n := len(adj)
 	maxc, col := GreedyColor(g, append([]int{}, order...))
 	rt.Check(len(col) == n, "GreedyColor: wrong length")
 	if len(col) != n {
@@ -336,11 +342,48 @@ func c09Greedy(N int) {
 		done[v] = true
 	}
 	rt.Check(maxc == top, "GreedyColor: returned maximum colour wrong")
-	rt.Reach("end")
 }
 
 func H_c09_greedy_q() { c09Greedy(4) }
 func H_c09_greedy_t() { c09Greedy(5) }
+
+// c09GreedyBig: every labelled graph on lo..hi vertices with three fixed orders (identity,
+// reverse, evens-then-odds).  Every (graph, order) pair is isomorphic to a labelled graph
+// with the identity order, so defects that do not depend on the vertex names are covered
+// for all orders; the all-orders quantifier itself is discharged only up to c09Greedy's n.
+func c09GreedyBig(lo, hi, R, O int) {
+	n := lo + rt.Choice("n", hi-lo+1)
+	adj := vgAdj(n, vgBits(n))
+	var g Graph
+	if rt.Choice("rep", R) == 0 {
+		g = vgDense(adj)
+	} else {
+		g = vgSparse(adj)
+	}
+	order := make([]int, 0, n)
+	switch rt.Choice("order", O) {
+	case 0:
+		for v := 0; v < n; v++ {
+			order = append(order, v)
+		}
+	case 1:
+		for v := n - 1; v >= 0; v-- {
+			order = append(order, v)
+		}
+	default:
+		for v := 0; v < n; v += 2 {
+			order = append(order, v)
+		}
+		for v := 1; v < n; v += 2 {
+			order = append(order, v)
+		}
+	}
+	c09GreedyCheck(adj, g, order)
+	rt.Reach("end")
+}
+
+func H_c09_greedybig_q() { c09GreedyBig(5, 6, 2, 3) }
+func H_c09_greedybig_t() { c09GreedyBig(7, 7, 1, 1) }
 
 func c09EdgeCol(N int) {
 	n := rt.Choice("n", N+1)
